@@ -62,12 +62,12 @@ static const int LEVELS[8] = { 0, 1, 2, 3, 4, 5, 6, 9999 };
 
 static void g_desc(uint64_t idx, void *ctx, char *b, size_t n)
 {
-    const probe_t *p = &PROBES[idx / 32]; (void) ctx;
-    snprintf(b, n, "build DEBUG=%d: %s at runtime level %d, silent %s%s", BUILD, p->name, LEVELS[(idx % 32) / 4], (idx / 2) % 2 ? "on" : "off", idx % 2 ? ", after refused output calls in the same process" : "");
+    const probe_t *p = &PROBES[idx / 48]; (void) ctx; static const char *sv[3] = { "off", "on (TRUE)", "on (0x100: a true value whose low byte is zero)" };
+    snprintf(b, n, "build DEBUG=%d: %s at runtime level %d, silent %s%s", BUILD, p->name, LEVELS[(idx % 48) / 6], sv[(idx / 2) % 3], idx % 2 ? ", after refused output calls in the same process" : "");
 }
 static void g_case(uint64_t idx, void *ctx)
 {
-    const probe_t *p = &PROBES[idx / 32]; int level = LEVELS[(idx % 32) / 4], silent = (int) ((idx / 2) % 2), hist = (int) (idx % 2); (void) ctx;
+    const probe_t *p = &PROBES[idx / 48]; int level = LEVELS[(idx % 48) / 6], silent = (int) ((idx / 2) % 3), hist = (int) (idx % 2); (void) ctx;
     char shape[120]; snprintf(shape, sizeof shape, "%s, runtime %s its level, silent %s", p->gate == G_DLEVEL || p->gate == G_DPRINTFN || p->gate == G_LIB ? (BUILD >= p->level ? "build at or above its level" : "build below its level") : (BUILD >= 1 ? "debugging compiled in" : "debugging compiled out"),
                           level >= p->level ? "at or above" : "below", silent ? "on" : "off");
     mc_set_shape(shape);
@@ -89,7 +89,7 @@ static void g_case(uint64_t idx, void *ctx)
             fflush(NULL);
             dup2(keep, 2); close(keep); close(nul);
         }
-        libast_debug_level = (unsigned) level; libast_set_silent(silent ? TRUE : FALSE); g_bump = 0;
+        libast_debug_level = (unsigned) level; libast_set_silent(silent == 0 ? FALSE : (silent == 1 ? TRUE : (spif_bool_t) 0x100)); g_bump = 0;
         p->fn();
         r.bumps = g_bump;
         fflush(NULL);
@@ -141,7 +141,7 @@ int main(int argc, char **argv)
     mc_init("C20", argc, argv);
     NP = 0; for (int i = 0; i < NPROBES; i++) if (!PROBES[i].thorough_only || mc_thorough()) NP = i + 1;
     mc_info("alphabet", "build DEBUG=%d (%s): %d probes (D_OPTIONS/OBJ/CONF/MEM/STRINGS/PARSE/NEVER, DPRINTF, DPRINTF1..9, ASSERT/ASSERT_RVAL/ASSERT_NOTREACHED_RVAL/REQUIRE/REQUIRE_RVAL true and false, the three output primitives%s) "
-            "x runtime levels {0..6, 9999} x silent {off,on} x {fresh process, after three refused output calls}", BUILD, mc_arg("build", "?"), NP, mc_thorough() ? ", four in-library statements" : "");
-    mc_e2_level("gate", BUILD, (uint64_t) NP * 32, g_case, g_desc, NULL);
+            "x runtime levels {0..6, 9999} x silent {off, TRUE, 0x100} x {fresh process, after three refused output calls}", BUILD, mc_arg("build", "?"), NP, mc_thorough() ? ", four in-library statements" : "");
+    mc_e2_level("gate", BUILD, (uint64_t) NP * 48, g_case, g_desc, NULL);
     return mc_finish();
 }
